@@ -1219,11 +1219,11 @@ func c07GenOne(r *Rand, mode string, nrel int) *c07In {
 	stick := r.Chance(50) // lineage keeps its address set
 	in.Slots0 = c07Subset(r, true)
 	cur := in.Slots0
-	// A listen-time failure leaks the descriptors startServers had dup'ed before the failing
-	// Listen (they are never closed: the "failed load leaves nothing behind" property, C08).  If
-	// such an address is dropped later its socket stays in LISTEN with nobody accepting and
-	// clients in flight there hang until their own timeout instead of being refused; that is
-	// outside this property's statement and costs 6 s per case, so lineages keep those addresses.
+	// Before 51fc21a a listen-time failure leaked the descriptors startServers had dup'ed before the
+	// failing Listen; a leaked address that is dropped later stays in LISTEN with nobody accepting
+	// and clients in flight there hang until their own timeout (6 s per case).  startServers closes
+	// them now (modelled: LListenFail; checked through the EFds descriptor counts), but lineages
+	// still keep such addresses so that a regression there costs a disagreement, not minutes.
 	var leaky []int
 	for i := 0; i < nrel; i++ {
 		rl := c07Reload{Var: r.Intn(64)}
